@@ -18,22 +18,22 @@ def Request.isAdminKind : Request → Bool
 
 /-- **Admin and cluster commands without admin authentication are no-ops**: the node state is
 unchanged, the reply is an error, nothing is pushed to anybody and nothing is replicated. -/
-theorem C09_unauth_noop (fuel : Nat) (n : Node) (sid : Sid) (req : Request)
+theorem C09_unauth_noop (fuel : Node → Sid → Bytes → Node × Out) (n : Node) (sid : Sid) (req : Request)
     (hk : req.isAdminKind = true) (ha : (n.session sid).auth = false) :
     n.processObj fuel sid req = (n, .error b!"Not auth", []) := by
   cases req <;> simp [Request.isAdminKind] at hk <;> simp [Node.processObj, ha, notAuth]
 
 /-- the same at the level of the raw command line, replication step included -/
-theorem C09_unauth_line_noop (fuel : Nat) (n : Node) (sid : Sid) (input : Bytes) (req : Request)
+theorem C09_unauth_line_noop (fuel : Node → Sid → Bytes → Node × Out) (n : Node) (sid : Sid) (input : Bytes) (req : Request)
     (hp : Request.parse (Bytes.trimBoth 10 input) = .ok req)
     (hk : req.isAdminKind = true) (ha : (n.session sid).auth = false) :
-    n.processRequest fuel sid input = (n, .error b!"Not auth", []) := by
-  unfold Node.processRequest
+    n.processRequestWith fuel sid input = (n, .error b!"Not auth", []) := by
+  unfold Node.processRequestWith
   simp only [hp, C09_unauth_noop fuel n sid req hk ha]
   simp [Node.replicateRequest, Resp.isError]
 
 /-- `create-user` and `set-permissions` (writes to `$$` keys) are refused for every non-admin session -/
-theorem C09_user_management_needs_admin (fuel : Nat) (n : Node) (sid : Sid) (ha : (n.session sid).auth = false)
+theorem C09_user_management_needs_admin (fuel : Node → Sid → Bytes → Node × Out) (n : Node) (sid : Sid) (ha : (n.session sid).auth = false)
     (req : Request) (hr : (∃ t u, req = .createUser t u) ∨ (∃ u ps, req = .setPermissions u ps)) :
     n.processObj fuel sid req = (n, .error b!"To read security keys you must auth as an admin!", []) := by
   have h1 : Bytes.startsWith Gen.userKeyPrefix Gen.securePrefix = true := by decide
@@ -63,7 +63,7 @@ theorem selectedDb_nodb (n : Node) (sid : Sid) (hd : (n.session sid).db = none) 
 
 /-- **Data commands do nothing until a database is selected**: state unchanged, error reply, and
 the only thing pushed is the refusal line on the requester's own channel. -/
-theorem C09_needs_db (fuel : Nat) (n : Node) (sid : Sid) (req : Request) (hk : req.isDataKind = true)
+theorem C09_needs_db (fuel : Node → Sid → Bytes → Node × Out) (n : Node) (sid : Sid) (req : Request) (hk : req.isDataKind = true)
     (ha : (n.session sid).auth = false) (hd : (n.session sid).db = none) :
     (n.processObj fuel sid req).1 = n ∧ (n.processObj fuel sid req).2.1.isError = true ∧
     ∀ e ∈ (n.processObj fuel sid req).2.2, e = .push sid Gen.noDbSelectedMsg := by
@@ -96,7 +96,7 @@ theorem C09_needs_db (fuel : Nat) (n : Node) (sid : Sid) (req : Request) (hk : r
     simp only [Node.processObj, ha, h, Node.withAccess, Bool.false_eq_true, if_false]; exact ⟨trivial, h1, h2⟩
 
 /-- **A failed `use-db` leaves everything, the previous selection included, untouched.** -/
-theorem C09_failed_usedb_keeps_selection (fuel : Nat) (n : Node) (sid : Sid) (token name : Bytes) (user : Option Bytes)
+theorem C09_failed_usedb_keeps_selection (fuel : Node → Sid → Bytes → Node × Out) (n : Node) (sid : Sid) (token name : Bytes) (user : Option Bytes)
     (he : (n.processObj fuel sid (.useDb token name user)).2.1.isError = true) :
     (n.processObj fuel sid (.useDb token name user)).1 = n := by
   unfold Node.processObj at he ⊢
@@ -135,7 +135,7 @@ def Request.keyedKind : Request → Option (Bytes × PermKind)
 required kind for the key reaches no database operation: state unchanged, `permission denied`,
 nothing else pushed. (Holds at every command, so permission changes mid-session take effect at
 once.) -/
-theorem C09_permission_sound (fuel : Nat) (n : Node) (sid : Sid) (req : Request) (key : Bytes) (kind : PermKind)
+theorem C09_permission_sound (fuel : Node → Sid → Bytes → Node × Out) (n : Node) (sid : Sid) (req : Request) (key : Bytes) (kind : PermKind)
     (d : Bytes) (db : Db)
     (hk : req.keyedKind = some (key, kind)) (ha : (n.session sid).auth = false)
     (hd : (n.session sid).db = some d) (hdb : n.db? d = some db)
@@ -146,7 +146,7 @@ theorem C09_permission_sound (fuel : Nat) (n : Node) (sid : Sid) (req : Request)
     simp [Node.processObj, Node.safeAccess, Node.accessDb, Node.withAccess, ha, hd, hdb, hns, hp]
 
 /-- `$$` keys are out of reach of every non-admin session whatever its permission list says -/
-theorem C09_secure_key_refused (fuel : Nat) (n : Node) (sid : Sid) (req : Request) (key : Bytes) (kind : PermKind)
+theorem C09_secure_key_refused (fuel : Node → Sid → Bytes → Node × Out) (n : Node) (sid : Sid) (req : Request) (key : Bytes) (kind : PermKind)
     (hk : req.keyedKind = some (key, kind)) (ha : (n.session sid).auth = false)
     (hs : Bytes.startsWith key Gen.securePrefix = true) :
     n.processObj fuel sid req = (n, .error b!"To read security keys you must auth as an admin!", []) := by
